@@ -202,26 +202,39 @@ pub fn graph_json(n: &dyn Namer, g: &ModuleGraph) -> Value {
       ctx.borrow_mut().insert(n.id(u.as_str()));
     }
   };
-  for m in g.modules() {
-    note(&mut sch, m.specifier());
-    for d in m.dependencies().values() {
-      for r in [&d.maybe_code, &d.maybe_type] {
-        if let Some(s) = r.maybe_specifier() {
+  // specifiers() lists the module slots first, under their real keys (pending slots are skipped)
+  let n_slots = g.modules().count() + g.module_errors().count();
+  for (key, r) in g.specifiers().take(n_slots) {
+    note(&mut sch, key);
+    match r {
+      Ok(m) => {
+        for d in m.dependencies().values() {
+          for r in [&d.maybe_code, &d.maybe_type] {
+            if let Some(s) = r.maybe_specifier() {
+              note(&mut sch, s);
+            }
+          }
+        }
+        if let Some(td) = m.maybe_types_dependency()
+          && let Some(s) = td.dependency.maybe_specifier()
+        {
           note(&mut sch, s);
         }
+        let mut v = module_json(n, m);
+        if m.specifier() != key {
+          v["keyMismatch"] = Value::String(n.id(m.specifier().as_str()));
+        }
+        slots.insert(n.id(key.as_str()), v);
+      }
+      Err(e) => {
+        let mut v = err_json(n, e);
+        if e.specifier() != key {
+          // the entry is stored under a specifier other than the one the error names
+          v["keyMismatch"] = Value::String(n.id(e.specifier().as_str()));
+        }
+        slots.insert(n.id(key.as_str()), v);
       }
     }
-    if let Some(td) = m.maybe_types_dependency()
-      && let Some(s) = td.dependency.maybe_specifier()
-    {
-      note(&mut sch, s);
-    }
-    slots.insert(n.id(m.specifier().as_str()), module_json(n, m));
-  }
-  // an error entry is stored under the error's own specifier
-  for e in g.module_errors() {
-    note(&mut sch, e.specifier());
-    slots.insert(n.id(e.specifier().as_str()), err_json(n, e));
   }
   for p in pending_specifiers(g) {
     slots.entry(n.id(&p)).or_insert(json!({"k": "pending"}));
